@@ -23,6 +23,18 @@ THEOREMS = [
     "C15_isv_training_equivariant",
     "C15_ivector_training_equivariant",
     "C15_ivector_mstep_sigma_equivariant",
+    "C15_ivector_training_sigma_equivariant",
+    "C15_kmeans_fit_scale_shift",
+    "C15_kmeans_fit_rotation",
+    "C15_kmeans_iter_scale_shift",
+    "C15_ml_starved_old_refuted",
+    "C15_map_mstep_equivariant",
+    "C15_map_training_equivariant",
+    "C15_ml_training_equivariant",
+    "C15_ml_criterion_shift",
+    "C15_abs_change_unit_free",
+    "C15_gmm_stop_rule_depends_on_units",
+    "C15_kmeans_stop_rule_unit_free",
 ]
 CORR_OPS = ["gmm_ll:transformed", "gmm_estep:transformed"]
 RULE = ("pairs (original, affinely transformed) of inputs: per-feature scales in +-[1e-3, 1e3] (negative and widely different magnitudes), "
@@ -31,6 +43,7 @@ RULE = ("pairs (original, affinely transformed) of inputs: per-feature scales in
 ASSUMPTIONS = ["the theorems relate two runs of functions already tied to the code by C01-C03, C05-C08, C10, C11; the correspondence re-runs "
                "the log-likelihood and E-step kernels on the transformed inputs; the metamorphic observation itself is the (always-on) search"]
 KNOWN_SIG = "map-variance-not-affine-equivariant"
+KNOWN_STOP_SIG = "gmm-stop-iteration-depends-on-units"
 
 
 def transform(ctx, D):
@@ -115,8 +128,7 @@ def o_train(sc, trainer):
             return {"sig": f"training-raises:{trainer}", "what": repr(r)}
         res.append((np.asarray(g.weights, float), np.asarray(g.means, float), np.asarray(g.variances, float)))
     (w0, m0, v0), (w1, m1, v1) = res
-    if np.min(np.bincount(np.argmax(np.asarray(gen.mk_gmm(w0, m0, v0, thr=0.0).log_weighted_likelihood(X)), axis=0), minlength=sc["C"])) == 0 and trainer == "ml":
-        return None  # a starved component puts the count floor into play: outside the guard
+    # (a starved component is no excuse: it keeps its mean and variance in both coordinate systems — D25)
     if not core.close(w1, w0, 1e-6, 1e-8):
         return {"sig": f"weights-not-invariant:{trainer}", "what": f"{w1.tolist()} vs {w0.tolist()}"}
     if not rel_close(m1, a * m0 + b, np.abs(a) * np.sqrt(v0), 1e-6):
@@ -127,6 +139,74 @@ def o_train(sc, trainer):
     if not rel_close(v1, a * a * v0, vscale, 1e-5):
         sig = KNOWN_SIG if (trainer == "map") else f"variances-not-equivariant:{trainer}"
         return {"sig": sig, "what": f"{trainer}: variances {v1.tolist()} vs a^2*var {(a * a * v0).tolist()}"}
+    return None
+
+
+def o_stop_units(rng):
+    """fit with the (default) convergence threshold active: the number of iterations, and with it the trained model, must not
+    depend on the units.  It does (finding D24): the test divides the change of the average log-likelihood by the previous
+    average log-likelihood, which a change of units shifts by sum log|a|."""
+    import bob.learn.em.gmm as G
+
+    C, D = int(rng.integers(2, 4)), int(rng.integers(1, 4))
+    w, m, v, _ = gen.gmm_params(rng, C, D, scales=np.ones(D))
+    X = rng.normal(size=(int(rng.integers(60, 300)), D)) * 2 + m.mean(0)
+    a = np.ones(D) * float(10.0 ** rng.choice([-3.0, -2.0, 2.0, 3.0]))
+    b = rng.normal(size=D) * np.abs(a)
+    thr = [1e-5, 1e-4, 1e-3][int(rng.integers(0, 3))]
+    out = []
+    for (mm, vv, x) in ((m, v, X), (a * m + b, a * a * v, a * X + b)):
+        g = gen.mk_gmm(w, mm, vv, thr=0.0, max_fitting_steps=200, convergence_threshold=thr, update_variances=True, update_weights=True)
+        n, orig = [0], G.m_step
+
+        def counted(*args, **kw):
+            n[0] += 1
+            return orig(*args, **kw)
+
+        G.m_step = counted
+        try:
+            r = core.impl(lambda: g.fit(x))
+        finally:
+            G.m_step = orig
+        if isinstance(r, core.ImplError):
+            return {"sig": "training-raises:ml", "what": repr(r)}
+        out.append((n[0], np.asarray(g.weights, float), np.asarray(g.means, float), np.asarray(g.variances, float)))
+    (n0, w0, m0, v0), (n1, w1, m1, v1) = out
+    if n0 != n1:
+        return {"sig": KNOWN_STOP_SIG, "what": f"convergence_threshold={thr}: training stops after {n0} iterations in the original units and after {n1} in units scaled by {a[0]:g} "
+                f"(means differ by up to {float(np.max(np.abs((m1 - b) / a - m0))):.3g} in the original units)"}
+    if n0 < 200 and not (core.close(w1, w0, 1e-5, 1e-7) and rel_close(m1, a * m0 + b, np.abs(a) * np.sqrt(v0), 1e-5)):
+        return {"sig": "means-not-equivariant:ml", "what": f"same number of iterations ({n0}) but the model does not follow the features"}
+    return None
+
+
+def o_linear_units(rng):
+    """linear scores under extreme changes of units (one feature in a unit 1e-12 .. 1e12 times the others'): the UBM's variance
+    floors are transformed with the features, as the property prescribes, so variances far below machine epsilon are legal"""
+    from bob.learn.em import linear_scoring
+
+    C, D = int(rng.integers(1, 4)), int(rng.integers(1, 4))
+    w, m, v, _ = gen.gmm_params(rng, C, D, scales=np.ones(D))
+    a = 10.0 ** rng.uniform(-12, 12, D) * rng.choice([-1.0, 1.0], D)
+    b = rng.normal(size=D) * np.abs(a)
+    models = [m + rng.normal(size=m.shape) * np.sqrt(v) for _ in range(int(rng.integers(1, 4)))]
+    tests = []
+    for _ in range(int(rng.integers(1, 4))):
+        t = int(rng.integers(1, 40))
+        n = rng.dirichlet(np.ones(C)) * t
+        tests.append((n, (m + rng.normal(size=m.shape) * np.sqrt(v)) * n[:, None], t))
+    norm = bool(rng.integers(0, 2))
+    out = []
+    for (aa, bb) in ((np.ones(D), np.zeros(D)), (a, b)):
+        ubm = gen.mk_gmm(w, aa * m + bb, aa * aa * v, thr=0.0)
+        sts = [gen.mk_stats(C, D, n, aa * f + bb * n[:, None], np.zeros((C, D)), t) for (n, f, t) in tests]
+        r = core.impl(lambda: np.asarray(linear_scoring(np.array([aa * x + bb for x in models]), ubm, sts, 0, norm), float))
+        if isinstance(r, core.ImplError):
+            return {"sig": "linear_scoring-raises", "what": repr(r)}
+        out.append(r)
+    scale = float(np.max(np.abs(out[0]))) + 1.0
+    if out[0].shape != out[1].shape or not core.close(out[1], out[0], 1e-6, 1e-6 * scale):
+        return {"sig": "scores-not-invariant", "what": f"scales {a.tolist()}: linear scores {out[1].tolist()} vs {out[0].tolist()} in the original units"}
     return None
 
 
@@ -182,6 +262,56 @@ def o_ivector(rng):
         out.append(np.asarray(iv.project(gen.mk_stats(C, D, n, ff, np.zeros((C, D)), 10)), float))
     if not core.close(out[0], out[1], 1e-6, 1e-8):
         return {"sig": "ivector-not-invariant", "what": f"{out[1].tolist()} vs {out[0].tolist()}"}
+    return o_ivector_train(rng)
+
+
+def o_ivector_train(rng):
+    """EM iterations of the extractor (e_step / m_step, as fit runs them) from a transformed start on transformed statistics:
+    T rows and sigma follow the features, i-vectors of probes are unchanged.  update_sigma: per-feature scales with a floor that
+    never clamps (C15_ivector_mstep_sigma_equivariant) or a uniform scale with the floor transformed like a variance, clamping or
+    not (C15_ivector_training_sigma_equivariant)."""
+    from bob.learn.em import IVectorMachine
+    import bob.learn.em.ivector as ivmod
+
+    C, D, R = int(rng.integers(1, 3)), int(rng.integers(1, 4)), int(rng.integers(1, 3))
+    w, m, v, _ = gen.gmm_params(rng, C, D, scales=np.ones(D))
+    mode = ["fixed", "sigma_free", "sigma_uniform"][int(rng.integers(0, 3))]
+    if mode == "sigma_uniform":
+        a = np.ones(D) * float(10.0 ** rng.uniform(-2, 2) * rng.choice([-1.0, 1.0]))
+    else:
+        a = 10.0 ** rng.uniform(-2, 2, D) * rng.choice([-1.0, 1.0], D)
+    b = rng.normal(size=D) * 5 * np.abs(a)
+    T = rng.normal(size=(C, D, R))
+    sts = []
+    for _ in range(int(rng.integers(2, 7))):
+        t = int(rng.integers(2, 30))
+        x = gen.sample_data(rng, w, m + rng.normal(size=m.shape) * 0.7, v, t)
+        sts.append(x)
+    probe = gen.sample_data(rng, w, m, v, 12)
+    floor = float(10.0 ** rng.uniform(-1.5, 0.5)) if mode == "sigma_uniform" else 1e-10 * float(np.min(a * a).clip(max=1.0))
+    iters = int(rng.integers(1, 4))
+    out = []
+    for (mm, vv, TT, f, fl) in ((m, v, T, lambda z: z, floor), (a * m + b, a * a * v, T * a[None, :, None], lambda z: a * z + b, floor * float(a[0] ** 2) if mode == "sigma_uniform" else floor)):
+        ubm = gen.mk_gmm(w, mm, vv)
+        iv = IVectorMachine(ubm, dim_t=R, max_iterations=iters, update_sigma=mode != "fixed", variance_floor=fl)
+        iv.dim_c, iv.dim_d, iv.T, iv.sigma = C, D, np.array(TT), np.array(vv)
+        data = [ubm.acc_stats(f(x)) for x in sts]
+        for _ in range(iters):
+            r = core.impl(lambda: ivmod.m_step(iv, ivmod.e_step(iv, data)))
+            if isinstance(r, core.ImplError):
+                return {"sig": "ivector-training-raises", "what": repr(r)}
+        out.append((np.asarray(iv.T, float), np.asarray(iv.sigma, float), np.asarray(iv.project(ubm.acc_stats(f(probe))), float)))
+    (T0, S0, w0), (T1, S1, w1) = out
+    if mode == "sigma_free" and np.min(S0) < 1e-6:
+        return None  # the floor is about to clamp: per-feature equivariance is not promised there
+    aa = np.abs(a)
+    scaleT = np.max(np.abs(T0), axis=(0, 2))[None, :, None] * aa[None, :, None]
+    if not np.all(np.isfinite(T1)) or np.any(np.abs(T1 - T0 * a[None, :, None]) > 1e-5 * (scaleT + 1e-300)):
+        return {"sig": "ivector-T-does-not-follow-features", "what": f"{mode}: T of the transformed problem differs from a*T (max rel {np.max(np.abs(T1 - T0 * a[None, :, None]) / (scaleT + 1e-300)):.2e})"}
+    if not rel_close(S1, a * a * S0, a * a * np.max(np.abs(S0), axis=0), 1e-5):
+        return {"sig": "ivector-sigma-does-not-follow-features", "what": f"{mode}: floor {floor}: sigma {S1.tolist()} vs a^2 * {S0.tolist()}"}
+    if not core.close(w1, w0, 1e-5, 1e-7):
+        return {"sig": "ivector-not-invariant", "what": f"{mode}: after {iters} training iterations {w1.tolist()} vs {w0.tolist()}"}
     return None
 
 
@@ -201,9 +331,15 @@ def o_kmeans(rng):
     thr = None if rng.integers(0, 3) == 0 else float(10 ** rng.uniform(-6, -2))
     c0 = X[:K].copy() if rng.integers(0, 3) == 0 else X[0] + 0.3 * rng.normal(size=(K, D))  # all in one blob: needs many iterations
     f = lambda Z: s * Z @ Q.T + t
+    if rng.random() < 0.3:
+        c0 = c0.copy()
+        c0[int(rng.integers(0, K))] = X.mean(axis=0) + 50.0 * (1 + rng.random(D))  # a centroid that attracts nothing keeps its place
+    as_dask = bool(rng.random() < 0.35)
+    import dask.array as da
     ms = []
     for (x, c) in ((X, c0), (f(X), f(c0))):
-        m = KMeansMachine(K, init_method=c, max_iter=5 if thr is None else 60, convergence_threshold=thr).fit(x)
+        xin = da.from_array(x, chunks=(tuple(gen.random_composition(rng, len(x))), x.shape[1])) if as_dask else x
+        m = KMeansMachine(K, init_method=c, max_iter=5 if thr is None else 60, convergence_threshold=thr).fit(xin)
         ms.append((np.asarray(m.centroids_, float), np.asarray(m.predict(x)), float(m.average_min_distance), np.asarray(m.transform(x), float)))
     (c_a, l_a, j_a, d_a), (c_b, l_b, j_b, d_b) = ms
     if not np.array_equal(l_a, l_b):
@@ -233,6 +369,10 @@ def search(ctx):
         if kind == "loglik":
             add(o_loglik(sc), {"kind": kind, **sc})
         elif kind in ("ml", "map"):
+            if sc["C"] >= 2 and ctx.rng.random() < 0.35:
+                # one component far from all data: it gets no responsibility and must stay where it is (in both systems)
+                sc["m"] = np.array(sc["m"], dtype=float)
+                sc["m"][int(ctx.rng.integers(0, sc["C"]))] += 300.0 * ctx.rng.choice([-1.0, 1.0], sc["D"])
             if kind == "map":
                 sc["map_thr"] = [None, 1.0, 0.3, 3.0][int(ctx.rng.integers(0, 4))]  # components with less than that many frames keep the prior
                 if sc["C"] >= 2 and ctx.rng.random() < 0.5:
@@ -248,6 +388,9 @@ def search(ctx):
             add(o_fa(sc, np.random.default_rng(seed)), {"kind": kind, "seed": seed})
         elif kind == "ivector":
             add(o_ivector(np.random.default_rng(seed)), {"kind": kind, "seed": seed})
+            add(o_stop_units(np.random.default_rng(seed)), {"kind": "stop_units", "seed": seed})
+            for sub in range(6):
+                add(o_linear_units(np.random.default_rng(seed + sub)), {"kind": "linear_units", "seed": seed + sub})
         else:
             for sub in range(12):  # cheap: many (scale, threshold, init) draws per slot
                 ctx.count("search:kmeans-draw")
@@ -258,6 +401,10 @@ def search(ctx):
 def replay(d):
     sc = d["input"]
     kind = sc["kind"]
+    if kind == "linear_units":
+        return o_linear_units(np.random.default_rng(sc["seed"]))
+    if kind == "stop_units":
+        return o_stop_units(np.random.default_rng(sc["seed"]))
     if kind in ("fa", "ivector", "kmeans"):
         rng = np.random.default_rng(sc["seed"])
         return o_fa({}, rng) if kind == "fa" else o_ivector(rng) if kind == "ivector" else o_kmeans(rng)
